@@ -31,6 +31,7 @@ type NodeSpec struct {
 	Alias    string
 	FailAPS  int
 	FailInit int
+	Lookups  []int // scenario indices of nodes this node looks up by name inside Init
 }
 
 func (n NodeSpec) String() string {
@@ -43,6 +44,9 @@ func (n NodeSpec) String() string {
 	}
 	if n.FailInit != 0 {
 		s += fmt.Sprintf(",failInit=%d", n.FailInit)
+	}
+	if len(n.Lookups) > 0 {
+		s += fmt.Sprintf(",lookups=%v", n.Lookups)
 	}
 	return s + "}"
 }
@@ -83,6 +87,7 @@ type GenOpts struct {
 	Aliases            bool
 	Selfs              bool
 	Faults             bool
+	Lookups            bool
 }
 
 var DefaultOpts = GenOpts{MinNodes: 2, MaxNodes: zoo.K, Variants: "NLP", Aliases: true}
@@ -138,6 +143,16 @@ func Gen(t *rapid.T, o GenOpts) *Scenario {
 			seen[a] = true
 		}
 	}
+	if o.Lookups {
+		for i := range s.Nodes {
+			if rapid.IntRange(0, 3).Draw(t, "haslookup") == 0 {
+				k := rapid.IntRange(1, 2).Draw(t, "nlookups")
+				for j := 0; j < k; j++ {
+					s.Nodes[i].Lookups = append(s.Nodes[i].Lookups, rapid.IntRange(0, len(s.Nodes)-1).Draw(t, "lookup"))
+				}
+			}
+		}
+	}
 	if o.Selfs {
 		k := rapid.IntRange(0, 2).Draw(t, "nselfs")
 		if k > 0 {
@@ -190,6 +205,14 @@ func (s *Scenario) Instantiate() *Instance {
 		b := &zoo.Beh{ID: len(in.Comps), Alias: n.Alias, Mask: zoo.MaskName(n.Mask), Log: in.Log, FailAPS: n.FailAPS, FailInit: n.FailInit}
 		add(zoo.New(n.Variant, n.Idx, b), b)
 	}
+	for i, n := range s.Nodes {
+		for _, j := range n.Lookups {
+			if j >= 0 && j < len(s.Nodes) && j != i {
+				nm, _ := model.NameOf(in.Comps[j])
+				in.Behs[i].InitLookups = append(in.Behs[i].InitLookups, nm)
+			}
+		}
+	}
 	for _, k := range s.Selfs {
 		sk := zoo.SelfKinds[k]
 		b := &zoo.Beh{ID: len(in.Comps), Alias: sk.Alias, Mask: "m0", Log: in.Log}
@@ -229,7 +252,22 @@ func (in *Instance) Run(extraOps ...app.SettingOption) {
 		ops = append(ops, app.SetComponents(in.Extra...))
 	}
 	ops = append(ops, extraOps...)
-	in.Out = kit.RunApp(ops...)
+	in.Out = kit.RunAppPre(func(a *app.App) {
+		for _, b := range in.Behs {
+			if b != nil && len(b.InitLookups) > 0 {
+				b.Lookup = func(name string) (got any, err error) {
+					// a failing / panicking lookup must not derail the callback itself
+					if p := kit.Protect(func() { got, err = a.GetComponentByName(name) }); p != nil {
+						if be, ok := p.(BudgetExceeded); ok {
+							panic(be)
+						}
+						err = fmt.Errorf("lookup panicked: %v", p)
+					}
+					return
+				}
+			}
+		}
+	}, ops...)
 	regd := in.Out.App.GetRegisteredComponents()
 	if regd == nil {
 		regd = map[string]any{}
